@@ -55,6 +55,7 @@ def units(tier):
     for kind in A.KINDS:
         for rep in pools.REPS:
             us.append(("dumps", kind, rep))
+            us.append(("dumps_yearedge", kind, rep))
             us.append(("derived", kind, rep))
     return us
 
@@ -261,6 +262,16 @@ def run_unit(unit, ctx):
         if rep == "cal":
             for pdesc in pools.point_descs(kind, rep, ts[:2], [[0, 0], [99, 59]], [-1, 10000], "small"):
                 check_dumps(ctx, kind, c, dict(pdesc, ned=2))
+    elif u == "dumps_yearedge":
+        # every complete format (also those of the other two representations) on the days where week-year and calendar
+        # year differ or nearly do, within an hour of midnight, so that a "Z" in the format moves the local date
+        _, kind, rep = unit
+        impl.set_mode(A.MODE_OF[kind])
+        c = M.cal(kind)
+        years = pools.Y_WEEKCYCLE_Q if ctx.tier == "quick" else pools.Y_WEEKCYCLE
+        for pdesc in pools.point_descs(kind, rep, pools.T_EDGE, pools.Z_EDGE, years, "yearedge"):
+            ctx.state_count += 1
+            check_dumps(ctx, kind, c, pdesc)
     elif u == "derived":
         _, kind, rep = unit
         impl.set_mode(A.MODE_OF[kind])
